@@ -262,6 +262,7 @@ func propExpressions(t *rapid.T) {
 		tag := embed + "#{" + e + "}"
 		dc := kit.DrawDecoys(t) // neighbouring fields of other tag kinds must not matter
 		obj := reflect.New(reflect.StructOf(dc.Around(reflect.StructField{Name: "F", Type: typ, Tag: reflect.StructTag("value:" + strconv.Quote(tag))})))
+		prefilled := rapid.IntRange(0, 2).Draw(t, "prefilled") == 0 && prefillNonZero(obj.Elem().FieldByName("F"))
 		out := kit.RunApp(app.SetComponents(obj.Interface()), app.SetConfigLoader(loader.NewRawLoader(c.yaml())))
 		if out.OK() {
 			if err := dc.Check(obj); err != nil {
@@ -288,8 +289,32 @@ func propExpressions(t *rapid.T) {
 		if !reflect.DeepEqual(got, want) {
 			t.Fatalf("C18: field holds %#v, direct evaluation of the substituted expression %q gives %#v\n%s", got, sub, want, desc)
 		}
-		kit.Rec.Case(desc, g.usesPh && sub != e, "result/"+typ.String())
+		labs := []string{"result/" + typ.String()}
+		if prefilled && reflect.ValueOf(want).IsZero() {
+			labs = append(labs, "zero-result-into-prefilled-field")
+		}
+		kit.Rec.Case(desc, g.usesPh && sub != e, labs...)
 	}
+}
+
+// prefillNonZero gives a field a non-zero content before the start ("defaults" set in the constructor): whatever is
+// bound - also a zero, a false, an empty result - must replace it.
+func prefillNonZero(f reflect.Value) bool {
+	switch f.Kind() {
+	case reflect.Int, reflect.Int8, reflect.Int16, reflect.Int32, reflect.Int64:
+		f.SetInt(5)
+	case reflect.Uint, reflect.Uint8, reflect.Uint16, reflect.Uint32, reflect.Uint64:
+		f.SetUint(5)
+	case reflect.Float32, reflect.Float64:
+		f.SetFloat(1.5)
+	case reflect.Bool:
+		f.SetBool(true)
+	case reflect.String:
+		f.SetString("old")
+	default:
+		return false
+	}
+	return true
 }
 
 func fmtAny(v any) string {
@@ -438,13 +463,14 @@ func TestValidateVar(t *testing.T) {
 		}
 		dc := kit.DrawDecoys(t) // neighbouring fields of other tag kinds must not matter
 		obj := reflect.New(reflect.StructOf(dc.Around(reflect.StructField{Name: "F", Type: typ, Tag: reflect.StructTag("value:" + strconv.Quote(tag))})))
+		prefilled := rapid.IntRange(0, 2).Draw(t, "prefilled") == 0 && prefillNonZero(obj.Elem().FieldByName("F"))
 		out := kit.RunApp(app.SetComponents(obj.Interface()), app.SetConfigLoader(loader.NewRawLoader([]byte(cfg))))
 		if out.OK() {
 			if err := dc.Check(obj); err != nil {
 				t.Fatalf("C18: %v%s", err, dc)
 			}
 		}
-		desc := fmt.Sprintf("value:%q (%s) cfg=%q", tag, typ, cfg)
+		desc := fmt.Sprintf("value:%q (%s) cfg=%q prefilled=%v", tag, typ, cfg, prefilled)
 		if out.Panic != nil {
 			t.Fatalf("C18: panic %v\n%s", out.Panic, desc)
 		}
@@ -657,4 +683,69 @@ func fmtPtr(v any) string {
 		return "<nil pointer>"
 	}
 	return fmt.Sprint(rv.Elem().Interface())
+}
+
+// ---- a history: a lazily created component is created again after the configuration was corrected --------------
+
+type HExpr struct {
+	E    int    `value:"#{${c18h.base:1}*10}"`
+	S    string `value:"n=#{${c18h.base:1}+1}"`
+	G    int    `value:"${c18h.base:1},validate=min=5"`
+	B    bool   `value:"#{${c18h.base:1}>6}"`
+	Runs int
+}
+
+func (*HExpr) LazyInit()      {}
+func (*HExpr) Naming() string { return "c18h-lazy" }
+func (h *HExpr) Init() error  { h.Runs++; return nil }
+
+// TestRetryHistory: expressions are evaluated over the placeholder values current at each creation attempt, and
+// validation judges the value bound in that attempt: while c18h.base < 5 the lookup fails (validate=min=5); once the
+// configuration has been corrected through Set the next lookup succeeds and every field shows the new value.
+func TestRetryHistory(t *testing.T) {
+	kit.Rec.Rule(rule)
+	rapid.Check(t, func(t *rapid.T) {
+		h := &HExpr{}
+		doc := "c18h:\n  pad: 1\n"
+		base := 1
+		if rapid.Bool().Draw(t, "configured") {
+			base = rapid.IntRange(1, 9).Draw(t, "base0")
+			doc = fmt.Sprintf("c18h:\n  base: %d\n", base)
+		}
+		out := kit.RunApp(app.SetComponents(h), app.SetConfigLoader(loader.NewRawLoader([]byte(doc))))
+		if !out.OK() {
+			t.Fatalf("C18: start failed: %v", out)
+		}
+		var hist []string
+		failedBefore := false
+		created := false
+		for i := rapid.IntRange(1, 4).Draw(t, "steps"); i > 0 && !created; i-- {
+			if rapid.IntRange(0, 2).Draw(t, "set") > 0 {
+				base = rapid.IntRange(1, 9).Draw(t, "base")
+				out.App.Set("c18h.base", base)
+				hist = append(hist, fmt.Sprintf("set base=%d", base))
+			}
+			_, err := out.App.GetComponentByName("c18h-lazy")
+			hist = append(hist, fmt.Sprintf("lookup fails=%v", err != nil))
+			if base < 5 {
+				if err == nil {
+					t.Fatalf("C18: c18h.base=%d violates validate=min=5, yet the lookup succeeded (G=%d); history %v", base, h.G, hist)
+				}
+				failedBefore = true
+				continue
+			}
+			if err != nil {
+				t.Fatalf("C18: c18h.base=%d satisfies validate=min=5 now, yet the lookup fails: %v; history %v", base, err, hist)
+			}
+			created = true
+			if h.E != base*10 || h.S != fmt.Sprintf("n=%d", base+1) || h.G != base || h.B != (base > 6) {
+				t.Fatalf("C18: with c18h.base=%d the component holds E=%d S=%q G=%d B=%v, expected E=%d S=%q G=%d B=%v; history %v", base, h.E, h.S, h.G, h.B, base*10, fmt.Sprintf("n=%d", base+1), base, base > 6, hist)
+			}
+		}
+		lab := []string{"retry-history"}
+		if created && failedBefore {
+			lab = append(lab, "created-after-a-failed-attempt")
+		}
+		kit.Rec.Case(doc+" | "+strings.Join(hist, ";"), created && failedBefore, lab...)
+	})
 }
